@@ -12,7 +12,8 @@ EXTENDS Integers, Sequences, FiniteSets, TLC, Json
 
 CONSTANTS RefCase,     \* which filter -> reference mapping (see Refs)
           Names,       \* secret names that exist in the world (referenced and unrelated)
-          Vals, MaxLen, Export
+          Vals, MaxLen, Export,
+          Local        \* TRUE: only events of the controller's own namespace (used to enumerate ALL histories up to MaxLen)
 
 \* per filter: "lit" (literal secret in the configuration) or the name of the referenced Secret
 Refs == CASE RefCase = 1 -> <<"n1", "n1", "lit">>
@@ -50,8 +51,8 @@ ReconcileOther(n) == Log(Ev("reconcileOtherNs", n, "")) /\ UNCHANGED <<k8s, othe
 
 Next ==
   /\ Len(hist) < MaxLen
-  /\ \E n \in Names : \/ \E v \in Vals : Set(n, v) \/ SetOther(n, v) \/ SetWhileDeleting(n, v)
-                      \/ DropKey(n) \/ EmptyKey(n) \/ MarkDeleting(n) \/ Delete(n) \/ Reconcile(n) \/ ReconcileOther(n)
+  /\ \E n \in Names : \/ \E v \in Vals : Set(n, v) \/ (~Local /\ SetOther(n, v)) \/ SetWhileDeleting(n, v)
+                      \/ DropKey(n) \/ (~Local /\ EmptyKey(n)) \/ MarkDeleting(n) \/ Delete(n) \/ Reconcile(n) \/ (~Local /\ ReconcileOther(n))
 Spec == Init /\ [][Next]_<<k8s, other, sec, hist>>
 view == <<k8s, other, sec>>
 
@@ -59,6 +60,8 @@ view == <<k8s, other, sec>>
 OnlyReferencing == \A f \in Filters : Refs[f] = "lit" => sec[f] = "literal"
 \* random walks (TLC -simulate): whole histories including steps that do not change the abstract state, which matter
 \* when the implementation keeps state of its own (an index, a cache) that the abstract state does not have
-PrintFull == (Export /\ Len(hist) = MaxLen) => PrintT(<<"SCN", ToJson([refs |-> Refs, events |-> hist])>>)
+\* (with Local and no VIEW: every history of MaxLen events whose last event is a reconcile - the implementation may keep
+\* state of its own that only a particular history brings out)
+PrintFull == (Export /\ Len(hist) = MaxLen /\ (Local => hist[MaxLen].op = "reconcile")) => PrintT(<<"SCN", ToJson([refs |-> Refs, events |-> hist])>>)
 PrintTransition == Export => PrintT(<<"SCN", ToJson([refs |-> Refs, events |-> hist'])>>)
 =============================================================================
